@@ -7,6 +7,7 @@ from ..gen_inv import PlanGen
 from .. import progcheck as PC
 from .dispatch_common import plan_summary
 from . import variants as V
+from . import groupcorr
 
 PROP = "C05"
 
@@ -41,6 +42,13 @@ def run(tier, seed, replay=None):
         for label, q in V.permutations_of(b, rng, limit):
             allv.append(q)
             owner.append((bi, label))
+    # function level: for every order the model of the grouping search must agree with the real search
+    try:
+        exe = C.build_hook()
+        sample = allv if tier == "quick" and len(allv) <= 160 else allv[:: max(1, len(allv) // (160 if tier == "quick" else 3000))]
+        groupcorr.compare(rep, exe, [(p.invocation_text(), [p.block_text(bi) for bi in p.order()]) for p in sample])
+    except C.BuildError as e:
+        rep.broken.append(str(e)[:2000])
     evs = PC.evaluate(so, allv, need_shadow=False)
     by_base = {}
     for ev, (bi, label) in zip(evs, owner):
